@@ -37,6 +37,9 @@ pub struct PtCfg {
     /// behind a Vfs: the switches are set in VfsOptions only, the passthrough Config keeps its defaults (the layer
     /// has to honour what the Vfs negotiated)
     pub layer_cfg_off: bool,
+    /// behind a Vfs: the backend is mounted AFTER the client's INIT (Vfs::mount then initialises it from the options
+    /// the Vfs stored at INIT time)
+    pub late_mount: bool,
 }
 
 impl PtCfg {
@@ -55,11 +58,12 @@ impl PtCfg {
             killpriv_v2: false,
             dax: false,
             layer_cfg_off: false,
+            late_mount: false,
         }
     }
     pub fn label(&self) -> String {
         format!(
-            "{}{}{}{}{}cache{}{}{}{}{}{}{}{}",
+            "{}{}{}{}{}cache{}{}{}{}{}{}{}{}{}",
             if self.no_open { "noopen," } else { "" },
             if self.no_opendir { "noopendir," } else { "" },
             if self.inode_file_handles { "filehandles," } else { "" },
@@ -73,6 +77,7 @@ impl PtCfg {
             if self.killpriv_v2 { ",killpriv" } else { "" },
             if self.dax { ",dax" } else { "" },
             if self.layer_cfg_off { ",switches-in-vfs-only" } else { "" },
+            if self.late_mount { ",mounted-after-init" } else { "" },
         )
     }
     /// A list in which every pair of switch values occurs (quick tier).
@@ -105,6 +110,7 @@ impl PtCfg {
                     killpriv_v2: bits & 256 != 0,
                     dax: false,
                     layer_cfg_off: false,
+                    late_mount: false,
                     cache,
                     seal_size: false,
                 };
@@ -361,6 +367,7 @@ impl PtWorld {
             ..Config::default()
         };
         let fs = PassthroughFs::<()>::new(pcfg).expect("PassthroughFs::new");
+        let mut late: Option<PassthroughFs<()>> = None;
         let (fsarc, vfsarc, subj) = if cfg.behind_vfs {
             fs.import().expect("import");
             let vfs = Vfs::new(VfsOptions {
@@ -370,7 +377,11 @@ impl PtWorld {
                 killpriv_v2: cfg.killpriv_v2,
                 ..VfsOptions::default()
             });
-            vfs.mount(Box::new(fs), "/").expect("vfs mount");
+            if cfg.late_mount {
+                late = Some(fs);
+            } else {
+                vfs.mount(Box::new(fs), "/").expect("vfs mount");
+            }
             let vfs = Arc::new(vfs);
             (None, Some(vfs.clone()), Subject::Vfs(Server::new(vfs)))
         } else {
@@ -382,6 +393,9 @@ impl PtWorld {
         let r = cl.init(&w.subj, caps);
         if r.ok() && r.body.len() >= 24 {
             w.enabled = crate::wire::get(&r.body, &k::FUSE_INIT_OUT, "flags") | if r.body.len() >= 64 { crate::wire::get(&r.body, &k::FUSE_INIT_OUT, "flags2") << 32 } else { 0 };
+        }
+        if let Some(fs) = late {
+            w.vfs.as_ref().unwrap().mount(Box::new(fs), "/").expect("vfs mount after INIT");
         }
         w
     }
